@@ -47,7 +47,7 @@ func lexCommonSwitch(w *World) (*ast.FuncDecl, *packages.Package, *ast.SwitchStm
 
 func (w *World) interfaceMethod(pkgKey, iface, name string) *types.Func {
 	p := w.Pkg(pkgKey)
-	tn, ok := p.Types.Scope().Lookup(iface).(*types.TypeName)
+	tn, ok := scopeLookup(p.Types.Scope(), iface).(*types.TypeName)
 	if !ok {
 		panic(undecided{"interface " + iface})
 	}
@@ -56,7 +56,7 @@ func (w *World) interfaceMethod(pkgKey, iface, name string) *types.Func {
 		panic(undecided{iface + " is not an interface"})
 	}
 	for i := 0; i < it.NumMethods(); i++ {
-		if it.Method(i).Name() == name {
+		if nm(it.Method(i)) == name {
 			return it.Method(i)
 		}
 	}
@@ -67,13 +67,13 @@ func (w *World) interfaceMethod(pkgKey, iface, name string) *types.Func {
 // embedding.
 func (w *World) concreteMethod(pkgKey, typ, name string) *types.Func {
 	p := w.Pkg(pkgKey)
-	tn, ok := p.Types.Scope().Lookup(typ).(*types.TypeName)
+	tn, ok := scopeLookup(p.Types.Scope(), typ).(*types.TypeName)
 	if !ok {
 		panic(undecided{"type " + pkgKey + "." + typ})
 	}
 	ms := types.NewMethodSet(types.NewPointer(tn.Type()))
 	for i := 0; i < ms.Len(); i++ {
-		if ms.At(i).Obj().Name() == name {
+		if nm(ms.At(i).Obj()) == name {
 			return ms.At(i).Obj().(*types.Func)
 		}
 	}
@@ -380,7 +380,7 @@ func constIntMap(w *World, pkgKey, name string) map[int64]int64 {
 }
 
 func pkgConstInt(w *World, pkgKey, name string) (int64, bool) {
-	c, ok := w.Pkg(pkgKey).Types.Scope().Lookup(name).(*types.Const)
+	c, ok := scopeLookup(w.Pkg(pkgKey).Types.Scope(), name).(*types.Const)
 	if !ok {
 		return 0, false
 	}
@@ -462,13 +462,13 @@ func lexDecisionTokens(w *World, f *ssa.Function, chars []rune) (map[string]int6
 			return false
 		}
 		if c.Call.IsInvoke() {
-			return c.Call.Method.Name() == "Next"
+			return nm(c.Call.Method) == "Next"
 		}
-		return c.Call.StaticCallee() != nil && c.Call.StaticCallee().Name() == "Next"
+		return c.Call.StaticCallee() != nil && nm(c.Call.StaticCallee()) == "Next"
 	}
 	isCanBeOp := func(v ssa.Value) bool {
 		c, ok := v.(*ssa.Call)
-		return ok && !c.Call.IsInvoke() && c.Call.StaticCallee() != nil && c.Call.StaticCallee().Name() == "tokenCanBeOperator"
+		return ok && !c.Call.IsInvoke() && c.Call.StaticCallee() != nil && nm(c.Call.StaticCallee()) == "tokenCanBeOperator"
 	}
 	for _, ch := range chars {
 		for _, eq := range []bool{true, false} {
